@@ -73,7 +73,9 @@ Prefixes == {"", "k", "ki"} \cup {Letters[i] : i \in 1..10} \cup {Letters[i] \o 
 Foreign == {"m", "g", "Kb", "D", "ii", "iK", "Mk", "KI", "mi"}
 UnitsOK == {"b", "bit", "B"}
 UnitsBad == {"", "bits", "Bit", "byte", "bb", "o", "Bi"}
-Systems == {"IEC", "SI", "mixed", "unknown", "iec"}
+\* the three documented systems and names that are none of them - also the empty name and (gamma: "none_object",
+\* "zero_object") values that are not names at all: an unknown unit system is refused, it is not a default
+Systems == {"IEC", "SI", "mixed", "unknown", "iec", "", "none_object", "zero_object"}
 
 \* TLC strings are atomic: prefix spellings are looked up in a table
 PTable == {<<"k", "k", FALSE>>, <<"ki", "k", TRUE>>}
